@@ -130,7 +130,7 @@ func zzData(pfx string) *Data {
 		d.Txs = Txs{}
 	default:
 		for i := 1; i < n; i++ {
-			d.Txs = append(d.Txs, Tx(zzsym.Bytes(pfx+"tx", 2)))
+			d.Txs = append(d.Txs, Tx(zzsym.Bytes(pfx+"tx", zzC12TxBytes)))
 		}
 	}
 	return d
@@ -180,10 +180,10 @@ func ZZ_C12_commitment_depends_on_txs() {
 	a, b := &Data{}, &Data{}
 	na, nb := zzsym.Pick("na", 3), zzsym.Pick("nb", 3)
 	for i := 0; i < na; i++ {
-		a.Txs = append(a.Txs, Tx(zzsym.Bytes("ta", 2)))
+		a.Txs = append(a.Txs, Tx(zzsym.Bytes("ta", zzC12TxBytes)))
 	}
 	for i := 0; i < nb; i++ {
-		b.Txs = append(b.Txs, Tx(zzsym.Bytes("tb", 2)))
+		b.Txs = append(b.Txs, Tx(zzsym.Bytes("tb", zzC12TxBytes)))
 	}
 	if bytes.Equal(a.DACommitment(), b.DACommitment()) {
 		zzsym.Reach("equal-commitments")
